@@ -92,14 +92,14 @@ def run_harnesses(set_name, tier='quick', prop=None):
         os.makedirs(gen_dir, exist_ok=True)
         fn = f'verif_gen_{set_name.lower()}.rs'
         try:
-            hlist, dyn_info = gen.generate(REPO, os.path.join(gen_dir, fn))
+            hlist, dyn_info = gen.generate(REPO, os.path.join(gen_dir, fn), tier)
         except Exception as e:
             return {'evidence': {'set': set_name}, 'harness_results': [], 'error': f'harness generation failed: {e!r}', 'assumptions': []}
         KS.MODULES[fn] = {'owner': 'crates/lib/src/lib.rs', 'name': fn[:-3], 'src_dir': gen_dir,
                           'prepend': '#![cfg_attr(kani, recursion_limit = "1024")]'}
         KS.SETS[set_name] = []
         for (h, tgt) in hlist:
-            KS.HARNESSES[h] = {'module': fn, 'target': tgt, 'what': 'arguments handed to the protocol-level query function agree (all ports; dispatch harnesses: all entries/settings)', 'timeout': 900}
+            KS.HARNESSES[h] = {'module': fn, 'target': tgt, 'what': 'for every listed table entry and all 65537 port choices: the call reaching the protocol function / transport has the destination, parameters and timeout the definition demands (quick tier: dedicated function and generic entry point without settings; thorough tier: also with timeout settings and a sample of extra settings)', 'timeout': 900}
             KS.SETS[set_name].append(h)
     hs = [h for h in KS.SETS[set_name] if tier == 'thorough' or KS.HARNESSES[h].get('tier', 'quick') == 'quick']
     if os.environ.get('VERIF_KANI_ONLY'):  # development aid: restrict to matching harnesses
@@ -130,7 +130,7 @@ def run_harnesses(set_name, tier='quick', prop=None):
         for b0 in range(0, len(hs), bsz):
             batch = hs[b0:b0 + bsz]
             cmd = ['cargo', 'kani', '-p', 'gamedig', '-Z', 'stubbing', '-Z', 'function-contracts', '--output-format', 'terse',
-                   '-j', str(min(14 if len(batch) > 16 else 8, max(1, len(batch))))]
+                   '-j', str(min(14 if len(batch) > 16 else 10, max(1, len(batch))))]
             for h in batch:
                 cmd += ['--harness', h]
             # own process group, so that a time-out also takes the cbmc children down (they hold gigabytes each)
